@@ -146,6 +146,61 @@ def rule_free(e) -> str | None:
     return None
 
 
+def still_applies(form) -> str | None:
+    """the first rewrite or folding event when a freshly built copy of ``form`` is driven step by step"""
+    fresh = wire.build_raw(wire.expr(form))
+    m = wire.size(fresh)
+    with instrument.observing() as log:
+        def again():
+            f = fresh
+            for _ in range(4 * m * m + 8):
+                if f._is_fully_reduced:
+                    return
+                f = f._take_reduction_step()
+        r = call(again, timeout=60)
+    return log.events[0] if r[0] == "ok" and log.events else None
+
+
+def library_driver(c: dict, info: dict, cur, rep: Report, finals: list, fb: Batch) -> None:
+    """the library's own loop (`_fully_reduce`, the one as_expression() runs) rather than steps taken by hand: it
+    must stop at a rule-free form too - also for an input that merely *hashes* like a form it returned before
+    (-1 and -2, 1 and 2**61 hash alike in CPython), which is what any memo of finished forms would be keyed by"""
+    got = call(lambda: wire.build_raw(c["e"])._fully_reduce(), timeout=30)
+    rep.evaluations += 1
+    if got[0] != "ok":
+        if got[1] not in ("timeout", "recursion", "overflow"):
+            rep.violation(f"_fully_reduce raised {got[1]} although the steps taken one by one succeed", info)
+        return
+    out = got[1]
+    if wire.expr(out) != wire.expr(cur):
+        ev = still_applies(out)
+        rep.count("library-driver", "other-form")
+        if ev:
+            rep.violation(f"_fully_reduce stops at a form that is not rule-free: {ev} still applies to {repr(out)[:200]}", info)
+        return
+    rep.count("library-driver", "same-form")
+    if rep.hist.get("hash-twins", {}).get("tried", 0) >= (200 if rep.tier == "quick" else 2000):
+        return
+    for w in common.expr_hash_twins(wire.expr(out)):
+        t = wire.build_raw(w)
+        same = call(lambda: hash(t) == hash(out) and t != out)
+        if same != ("ok", True):
+            continue
+        rep.count("hash-twins", "tried")
+        rep.evaluations += 1
+        r = call(lambda: t._fully_reduce(), timeout=30)
+        if r[0] != "ok":
+            if r[1] not in ("timeout", "recursion", "overflow", "domain"):
+                rep.violation(f"_fully_reduce raised {r[1]} on {repr(t)[:200]}", dict(info, twin=w))
+            continue
+        ev = still_applies(r[1])
+        if ev:
+            rep.violation(f"after returning {repr(out)[:160]}, _fully_reduce stops {repr(t)[:160]} (a different expression with the same "
+                          f"hash) at a form that is not rule-free: {ev} still applies to {repr(r[1])[:200]}", dict(info, twin=w))
+        elif wire.size(r[1]) <= 300:
+            finals.append((dict(c, twin=w), dict(info, twin=w), fb.ask(f"F0 trace 200 {wire.expr(r[1])}"), repr(r[1])[:300], wire.expr(r[1])))
+
+
 def check_cases(cases: list[dict], rep: Report, known: dict) -> None:
     miss = instrument.missing_rules()
     if miss:
@@ -244,6 +299,8 @@ def check_cases(cases: list[dict], rep: Report, known: dict) -> None:
                     # ... and by the documented rules rather than the implementation's own verdict: the model's
                     # rewriter (46 proved rules and constant folding) must find nothing to do on the final form
                     finals.append((c, info, fb.ask(f"F0 trace 200 {wire.expr(cur)}"), repr(cur)[:300], wire.expr(cur)))
+        if not warned and steps <= 1000 and c.get("reuse") is None and not rep.stop():
+            library_driver(c, info, cur, rep, finals, fb)
         # (a reused object occurring twice shares its flags between the occurrences; the tree model
         #  does not — those shapes are judged on the implementation alone)
         if steps <= 1000 and c.get("reuse") not in (3, 4):
